@@ -173,11 +173,23 @@ pub(super) fn __add2(a: &mut [BigDigit], b: &[BigDigit]) -> BigDigit {
 
     let mut carry = c as u8;
 
+    #[cfg(num_bigint_verif)]
+    {
+        crate::__verif::hit_n(crate::__verif::ASM_ADD_BLOCKS, (done / 5) as u64);
+        if done < b.len() {
+            crate::__verif::hit(crate::__verif::ADD_TAIL);
+        }
+    }
+
     for (a, b) in a_lo[done..].iter_mut().zip(b[done..].iter()) {
         carry = adc(carry, *a, *b, a);
     }
 
     if carry != 0 {
+        #[cfg(num_bigint_verif)]
+        if !a_hi.is_empty() {
+            crate::__verif::hit(crate::__verif::ADD_CARRY_HI);
+        }
         for a in a_hi {
             carry = adc(carry, *a, 0, a);
             if carry == 0 {
